@@ -214,6 +214,9 @@ func (p *pkgInfo) tyOf(e ast.Expr) string {
 		if p.tyOf(v.Elt) == "u8" {
 			return "bytes"
 		}
+		if s := boxSliceTy(v); s != "" { // bytes_boxed.go
+			return s
+		}
 	case *ast.SelectorExpr:
 		if id, ok := v.X.(*ast.Ident); ok && id.Name == "pool" && v.Sel.Name == "Buffer" {
 			return "bytes"
@@ -241,7 +244,7 @@ func leanTy(ty string) string {
 	case "int", "u8", "u16", "u32":
 		return "Nat"
 	}
-	return ""
+	return boxLeanTy(ty) // bytes_boxed.go ("" unless a boxed type)
 }
 
 // structFields returns the (name, type, embedded) fields of a struct type of the package in declaration order.
@@ -299,6 +302,9 @@ type bfunc struct {
 	failed  bool
 	sigTy   string // Lean type of the definition (known as soon as the parameters are resolved)
 	stepTy  string // Lean type of <name>_step (loops)
+	// bytes_boxed.go
+	copies     []structCopy
+	copiesDone bool
 }
 
 func (f *bfunc) key() string { return f.sp.Func }
@@ -367,6 +373,11 @@ type btr struct {
 	swK    []func(int) // continuations of the enclosing switch statements (for an unlabelled break)
 	inLoop bool
 	alias  map[string]sliceAlias // local name -> window of a slice variable
+	// bytes_boxed.go: several top-level loops
+	multi  bool
+	aux    *strings.Builder
+	doc    string
+	loopNo int
 }
 
 type loopCtx struct {
@@ -667,6 +678,9 @@ func (t *btr) callExpr(c *ast.CallExpr) (string, string) {
 			}
 			t.fail("len of %q", src)
 		case "append":
+			if s, ty, ok := t.boxedAppend(c); ok { // bytes_boxed.go
+				return s, ty
+			}
 			if len(c.Args) == 2 {
 				a, aty := t.exprTy(c.Args[0])
 				b, bty := t.exprTy(c.Args[1])
@@ -1066,7 +1080,16 @@ func (t *btr) block(ind int, list []ast.Stmt, k func(int)) {
 	case *ast.BlockStmt:
 		t.block(ind, append(append([]ast.Stmt{}, v.List...), rest...), k)
 	case *ast.LabeledStmt:
+		if fs, ok := v.Stmt.(*ast.ForStmt); ok && t.multi { // bytes_boxed.go
+			t.seqLoop(ind, v.Label.Name, fs, next)
+			return
+		}
 		t.fail("labelled statement %q is not the function's loop", v.Label.Name)
+	case *ast.ForStmt:
+		if !t.multi {
+			t.fail("unsupported statement %q", text(s))
+		}
+		t.seqLoop(ind, "", v, next) // bytes_boxed.go
 	case *ast.DeclStmt:
 		gd := v.Decl.(*ast.GenDecl)
 		if gd.Tok != token.VAR {
@@ -1301,7 +1324,8 @@ func (t *btr) assignStmt(ind int, v *ast.AssignStmt, rest []ast.Stmt, k func(int
 		if c, ok := v.Rhs[0].(*ast.CallExpr); ok {
 			nPre, nTmp := len(t.pre), t.tmp
 			callee, args, outs, wins := t.resolveCallW(c)
-			if callee != nil && !(callee.hasErr || len(v.Lhs) > 1 || len(outs) > 0) {
+			structRes := callee != nil && len(callee.results) == 1 && strings.HasPrefix(callee.results[0], "struct:") && (v.Tok == token.ASSIGN || v.Tok == token.DEFINE)
+			if callee != nil && !(callee.hasErr || len(v.Lhs) > 1 || len(outs) > 0 || structRes) {
 				// a single-valued call that cannot fail is an expression (translated below): undo the argument binds
 				t.pre, t.tmp, callee = t.pre[:nPre], nTmp, nil
 			}
@@ -1335,6 +1359,12 @@ func (t *btr) assignStmt(ind int, v *ast.AssignStmt, rest []ast.Stmt, k func(int
 						if _, exists := t.ty[errName]; !exists {
 							t.ty[errName] = "error"
 						}
+						continue
+					}
+					if strings.HasPrefix(rty, "struct:") { // bytes_boxed.go
+						sp, sa := t.structResult(l, define, rty, text(v))
+						pat = append(pat, sp...)
+						assigns = append(assigns, sa...)
 						continue
 					}
 					if leanTy(rty) == "" {
@@ -1374,8 +1404,21 @@ func (t *btr) assignStmt(ind int, v *ast.AssignStmt, rest []ast.Stmt, k func(int
 				if errName != "" {
 					t.errSt[errName] = "nil"
 				}
+				t.applyCopies(ind, callee, c) // bytes_boxed.go
 				next(ind)
 				return
+			}
+			// x = NewT() for a declared struct / interface variable x (bytes_boxed.go)
+			if id, ok := c.Fun.(*ast.Ident); ok && v.Tok == token.ASSIGN && len(v.Lhs) == 1 && len(c.Args) == 0 && strings.HasPrefix(id.Name, "New") {
+				if l, ok := v.Lhs[0].(*ast.Ident); ok && (strings.HasPrefix(t.ty[l.Name], "iface:") || strings.HasPrefix(t.ty[l.Name], "struct:")) {
+					if fd := t.pkg.funcDecl(id.Name); fd != nil && fd.Type.Results != nil && len(fd.Type.Results.List) == 1 {
+						if ty := t.pkg.tyOf(fd.Type.Results.List[0].Type); strings.HasPrefix(ty, "struct:") {
+							t.freshStruct(ind, l.Name, ty[7:])
+							next(ind)
+							return
+						}
+					}
+				}
 			}
 			// x := NewT(): a fresh struct from a pool; its fields have no value until assigned
 			if id, ok := c.Fun.(*ast.Ident); ok && define && len(v.Lhs) == 1 && len(c.Args) == 0 && strings.HasPrefix(id.Name, "New") {
@@ -1510,6 +1553,9 @@ func (t *btr) assignStmt(ind int, v *ast.AssignStmt, rest []ast.Stmt, k func(int
 func (t *btr) ret(ind int, v *ast.ReturnStmt) {
 	f := t.f
 	wrap := func(s string) string {
+		if t.inLoop && t.multi { // bytes_boxed.go
+			t.fail("a loop of a function with several loops returns a value: %q", text(v))
+		}
 		if t.inLoop {
 			return "pure (Sum.inr " + s + ")"
 		}
@@ -1568,6 +1614,10 @@ func (t *btr) ret(ind int, v *ast.ReturnStmt) {
 	for i, r := range v.Results {
 		rty := f.results[i]
 		if rty == "error" {
+			continue
+		}
+		if strings.HasPrefix(rty, "iface:") { // bytes_boxed.go
+			vals = append(vals, t.boxValue(r, rty[6:]))
 			continue
 		}
 		if strings.HasPrefix(rty, "struct:") {
@@ -1739,6 +1789,9 @@ func translateBytes(f *bfunc, reg map[string]*bfunc) (res string, err error) {
 	f.sigTy = t.arrow() + "Res (" + rt + ")"
 	doc := fmt.Sprintf("translated from %s `%s`", f.sp.File, f.sp.Func)
 	body := f.fd.Body.List
+	if countTopLoops(body) > 1 { // bytes_boxed.go
+		return t.translateSeqLoops(doc, rt, body), nil
+	}
 	// locate the (single, top-level) loop
 	loopAt := -1
 	for i, s := range body {
@@ -1931,6 +1984,10 @@ func generateCodec(repo string, specs []spec) string {
 	reg := map[string]*bfunc{}
 	var order []*bfunc
 	errs := map[string]error{}
+	if err := registerBoxes(specs); err != nil { // bytes_boxed.go
+		fmt.Fprintln(os.Stderr, "gotolean:", err)
+		os.Exit(2)
+	}
 	for _, sp := range specs {
 		bf, err := newBfunc(repo, sp)
 		if err == nil {
